@@ -214,6 +214,69 @@ func TestCheck(t *testing.T) {
 				}
 				check("unmarshal")
 			},
+			// decoding into a slice the caller already owns (elements present, spare capacity): the array stays
+			// the caller's, whatever the decoder does with its pooled scratch arrays afterwards
+			"unmarshal-prepop": func(t *rapid.T) {
+				kind := rapid.IntRange(0, 3).Draw(t, "kind")
+				pre := rapid.IntRange(1, 3).Draw(t, "pre")
+				room := rapid.IntRange(1, 12).Draw(t, "room")
+				n := rapid.IntRange(1, pre+room).Draw(t, "elems")
+				var elemT reflect.Type
+				var parts []string
+				for i := 0; i < n; i++ {
+					switch kind {
+					case 0:
+						parts = append(parts, jsongen.StringLit(t, jsongen.DefaultCfg))
+					case 1, 3:
+						parts = append(parts, string(jsongen.Gen(t, jsongen.Cfg{MaxDepth: 2, MaxElems: 3, Exotic: true}).Render()))
+					default:
+						parts = append(parts, `"aGVsbG8gd29ybGQ="`)
+					}
+				}
+				switch kind {
+				case 0:
+					elemT = reflect.TypeOf("")
+				case 1:
+					elemT = reflect.TypeOf(stdjson.RawMessage(nil))
+				case 2:
+					elemT = reflect.TypeOf([]byte(nil))
+				default:
+					elemT = reflect.TypeOf((*interface{})(nil)).Elem()
+				}
+				doc := []byte("[" + strings.Join(parts, ", ") + "]")
+				dst := reflect.New(reflect.SliceOf(elemT))
+				sl := reflect.MakeSlice(reflect.SliceOf(elemT), pre, pre+room)
+				for i := 0; i < pre; i++ {
+					switch kind {
+					case 0:
+						sl.Index(i).SetString(fmt.Sprintf("caller-%d", i))
+					case 1, 2:
+						sl.Index(i).SetBytes([]byte(fmt.Sprintf(`"caller-%d"`, i)))
+					default:
+						sl.Index(i).Set(reflect.ValueOf(fmt.Sprintf("caller-%d", i)))
+					}
+				}
+				dst.Elem().Set(sl)
+				via := rapid.SampledFrom([]string{"Unmarshal", "Decoder"}).Draw(t, "via")
+				record(Step{Op: "unmarshal-prepop:" + via, Arg: string(doc), Arg2: kind, Arg3: pre*100 + room})
+				rt.Journal("histories", func() string { x, _ := stdjson.Marshal(st.steps); return string(x) })
+				var err error
+				if pv := rt.Guard(func() {
+					if via == "Unmarshal" {
+						err = gojson.Unmarshal(doc, dst.Interface())
+					} else {
+						err = gojson.NewDecoder(bytes.NewReader(doc)).Decode(dst.Interface())
+					}
+				}); pv != nil {
+					failf("%s into a pre-populated slice panicked: %v", via, pv)
+					return
+				}
+				if err == nil {
+					st.held = append(st.held, held{val: dst, snap: render(dst.Elem()), what: via + " into a pre-populated slice of " + clip(string(doc))})
+					rt.Label("decode into a caller-owned slice with spare capacity")
+				}
+				check("unmarshal-prepop")
+			},
 			"decoder-next": func(t *rapid.T) {
 				if st.dec == nil {
 					var stream []byte
